@@ -301,9 +301,12 @@ func checkMain(repo, verif string, args []string) int {
 		return nil
 	}
 	printed := map[string]bool{}
+	var excluded []string
 
 	for _, o := range failed {
 		if k := isKnown(o.ID); k != nil {
+			nObl-- // accounted for by a recorded finding, not part of the proof claim
+			excluded = append(excluded, o.ID)
 			if !printed[k.What] {
 				printed[k.What] = true
 				line := fmt.Sprintf("KNOWN-FINDING: property=%s %s", *prop, k.What)
@@ -390,6 +393,7 @@ func checkMain(repo, verif string, args []string) int {
 		"undecided_clauses":        meta.Undecided,
 		"bounded_standins":         meta.Bounded,
 		"known_findings_printed":   knownPrinted,
+		"excluded_by_known_findings": excluded,
 		"baseline_missing":         missing,
 		"unreachable_returns":      deadReturns,
 		"samples":                  samples,
